@@ -21,12 +21,12 @@ from .. import tsparse
 from ..core import Violation, call
 
 ENTRIES = ['parse_dict', 'parse_text', 'parse_stream', 'construct', 'new_version_changes', 'bundle',
-           'bundle_dict', 'mem_add', 'mem_add_list', 'fs_add', 'fs_add_text', 'fs_read', 'mem_load', 'parse_observable', 'env_add', 'late_registered', 'fs_add_bundle']
+           'bundle_dict', 'mem_add', 'mem_add_list', 'fs_add', 'fs_add_text', 'fs_read', 'mem_load', 'parse_observable', 'env_add', 'late_registered', 'fs_add_bundle', 'parse_observable20']
 # The error-family clause is stated for parsing and constructing; for store entry points only exceptions that
 # come out of the parse/construct step are judged (innermost library frame outside stix2/datastore), and the
 # failure-atomicity clause is checked for every failing call.
 PARSE_ENTRIES = ('parse_dict', 'parse_text', 'parse_stream', 'construct', 'new_version_changes', 'bundle', 'bundle_dict', 'parse_observable',
-                 'late_registered')
+                 'late_registered', 'parse_observable20')
 JUNK = {
     'null': [None],
     'number': [0, -1, 1.5, 10 ** 30, 7, 10 ** 400, -(10 ** 310), 1e308, 5e-324],
@@ -177,7 +177,9 @@ def corrupt(j, picks):
                 desc.append(dict(path='.'.join(str(p) for p in dpath + (key,)), prop=key, depth=len(dpath) + 1,
                                  kind='injected-' + kind_of_json(val), was='-'))
             continue
-        path = ss[site_n % len(ss)]
+        # one pick in seven goes to a property that only a registered extension validates, when the object has one
+        hot = [p for p in ss if p and p[-1] in ('rank', 'score', 'toxicity')]
+        path = hot[site_n % len(hot)] if hot and site_n % 7 == 0 else ss[site_n % len(ss)]
         old = get_at(j, path)
         k = kind
         if kind_of_json(old) == ('list' if k == 'nested' else k) and k not in ('nested', 'empty'):
@@ -264,7 +266,7 @@ class C17(Profile):
     probes = ['corruption_at_depth>=3', 'corruption_in_extension', 'corruption_in_embedded_object', 'stored_file_corrupted',
               'saved_bundle_corrupted', 'stream_input', 'call_raised_library_error', 'call_returned', 'atomicity_checked_store',
               'atomicity_checked_registry', 'list_add_prefix_checked', 'multi_site_corruption', 'observed_data_member_corrupted', 'two_toplevel_extensions',
-              'deep_nesting_injected', 'type_registered_after_first_parse', 'failing_type_registration', 'member_order_varied', 'bundle_given_to_filesystem_sink']
+              'deep_nesting_injected', 'type_registered_after_first_parse', 'failing_type_registration', 'member_order_varied', 'bundle_given_to_filesystem_sink', 'observable_2.0_with_reference_scope']
     rule = ('plans: 30-80 calls; each takes a valid object (every SDO/SRO type of both versions, 2.1 SCOs, SCOs with nested extensions, 2.0 '
             'observed-data with members, marking definitions, language-content), applies 1-3 wrong-kind replacements at plan-chosen sites of any '
             'depth (incl. values nested 120-800 levels), and delivers it through one of 16 entry points (parse of dict/text/stream, constructor, new_version, Bundle, '
@@ -395,6 +397,21 @@ class C17(Profile):
         first has let something through unvalidated in one of the two orders."""
         if self.deep_of(desc):
             return
+
+        def pairlike(v, orig):
+            # the library reads a LIST given where an object is expected as a sequence of (name, value) pairs (documented for
+            # e.g. hashes); a two-member object inside such a list is then one pair made of its member NAMES in their order - there
+            # member order does carry meaning, by that convention, and the oracle does not apply
+            if isinstance(v, list):
+                if not isinstance(orig, list) and any(isinstance(x, (dict, list, str)) and len(x) == 2 for x in v):
+                    return True
+                return any(pairlike(x, orig[i] if isinstance(orig, list) and i < len(orig) else None) for i, x in enumerate(v))
+            if isinstance(v, dict):
+                return any(pairlike(x, orig.get(k) if isinstance(orig, dict) else None) for k, x in v.items())
+            return False
+        if pairlike(bad, base_object(op) if op.get('src') else None):
+            self.world.stat('member_order_not_applicable:list-read-as-pairs')
+            return
         import random
         rng = random.Random(op['n'] * 31 + len(desc))
 
@@ -517,6 +534,31 @@ class C17(Profile):
                 bd2, desc2 = corrupt(bd, [tuple(op['picks'][0])]) if op['pos'] == 2 and not deep else (bd, [])
                 desc = desc + desc2
                 out = call(s.parse, bd2, allow_custom=ac)
+        elif entry == 'parse_observable20':
+            # a STIX 2.0 observable with object references and the documented scope argument (_valid_refs: key -> type name,
+            # key -> object, or a list of keys); the damage lands in the observable or in the scope
+            obs = [{'type': 'file', 'name': 'a.zip', 'parent_directory_ref': '1', 'contains_refs': ['2']},
+                   {'type': 'email-message', 'is_multipart': False, 'from_ref': '1', 'to_refs': ['2', '3'], 'subject': 's'},
+                   {'type': 'network-traffic', 'protocols': ['tcp'], 'src_ref': '1', 'dst_ref': '2', 'encapsulates_refs': ['3']},
+                   {'type': 'directory', 'path': '/tmp', 'contains_refs': ['1', '2']}][op['n'] % 4]
+            kinds20 = {'file': {'1': 'directory', '2': 'file'}, 'email-message': {'1': 'email-addr', '2': 'email-addr', '3': 'email-addr'},
+                       'network-traffic': {'1': 'ipv4-addr', '2': 'ipv4-addr', '3': 'network-traffic'}, 'directory': {'1': 'file', '2': 'directory'}}[obs['type']]
+            form = op['n'] // 4 % 3
+            scope = dict(kinds20) if form == 0 else {k: {'type': v, 'value': 'x'} for k, v in kinds20.items()} if form == 1 else sorted(kinds20)
+            if op['pos'] == 0:
+                obs, desc = corrupt(obs, [tuple(p) for p in op['picks']])
+            else:
+                wrapped, desc = corrupt({'scope': scope}, [tuple(p) for p in op['picks']])
+                scope = wrapped.get('scope', scope) if isinstance(wrapped, dict) else scope
+            world.probe('observable_2.0_with_reference_scope')
+            if op['n'] % 5 == 0 and isinstance(obs, dict):
+                # the scope travelling inside the document, as parse() accepts it
+                out = call(s.parse, dict(cp(obs), _valid_refs=cp(scope)), allow_custom=ac, version='2.0')
+            else:
+                out = call(s.parse_observable, cp(obs), cp(scope), allow_custom=ac, version='2.0')
+            op = dict(op, name=obs.get('type', '?') if isinstance(obs, dict) else '?')
+            if not isinstance(op['name'], str):
+                op['name'] = '?'
         elif entry == 'late_registered':
             self.late_registered(op, i)
             return
